@@ -1,7 +1,6 @@
 package dnsforward
 
 import (
-	"encoding/binary"
 	"fmt"
 
 	"github.com/AdguardTeam/AdGuardHome/internal/aghnet"
@@ -16,8 +15,8 @@ import (
 var _ proxy.BeforeRequestHandler = (*Server)(nil)
 
 // HandleBefore is the handler that is called before any other processing,
-// including logs.  It performs access checks and puts the ClientID, if there
-// is one, into the server's cache.
+// including logs.  It validates the ClientID, if there is one, and performs
+// access checks.
 //
 // TODO(d.kolyshev): Extract to separate package.
 func (s *Server) HandleBefore(
@@ -46,12 +45,6 @@ func (s *Server) HandleBefore(
 
 			return s.preBlockedResponse(pctx)
 		}
-	}
-
-	if clientID != "" {
-		key := [8]byte{}
-		binary.BigEndian.PutUint64(key[:], pctx.RequestID)
-		s.clientIDCache.Set(key[:], []byte(clientID))
 	}
 
 	return nil
